@@ -164,14 +164,14 @@ macro_rules! cms_merge_harness {
                 a.merge(&b);
                 let mut i = 0;
                 while i < W * D {
-                    assert!((a.table[i] as u128) == (ta[i] as u128) + (tb[i] as u128), "C06 merge adds the tables cell by cell");
+                    assert!((a.table[i] as u128) == (ta[i] as u128) + (tb[i] as u128), "C02 C06 merge adds the tables cell by cell");
                     assert!(b.table[i] == tb[i], "C06 merge leaves the other sketch unchanged");
                     i += 1;
                 }
                 assert!(a.table.len() == W * D, "C11 merge keeps the table size");
                 a.clear();
                 let mut i = 0;
-                while i < W * D { assert!(a.table[i] == 0, "C19 clear zeroes every counter"); i += 1; }
+                while i < W * D { assert!(a.table[i] == 0, "C02 C19 clear zeroes every counter"); i += 1; }
                 assert!(a.is_empty(), "C19 cleared sketch is empty");
                 assert!(a.table.len() == W * D && a.w == W && a.d == D, "C19 C11 clear keeps the configuration");
             }
